@@ -42,8 +42,14 @@ def _observe(p: Any) -> Dict[str, Any]:
     }
 
 
+PP_VALID = [b'PROXY TCP4 192.0.2.1 192.0.2.2 56324 443\r\n', b'PROXY TCP6 2001:db8::1 2001:db8::2 1 65535\r\n', b'PROXY UNKNOWN\r\n']
+
+
 def _new_parser(kind: str) -> Any:
     from proxy.http.parser import HttpParser, httpParserTypes
+    if kind == 'req-pp':
+        # the listener was started with --enable-proxy-protocol: a (valid, v1) PROXY line precedes the request
+        return HttpParser(httpParserTypes.REQUEST_PARSER, enable_proxy_protocol=1)
     return HttpParser(httpParserTypes.REQUEST_PARSER if kind == 'req' else httpParserTypes.RESPONSE_PARSER)
 
 
@@ -92,6 +98,9 @@ def case_bytes(c: Dict[str, Any]) -> Tuple[bytes, int, str, bytes]:
         m = G.render_body(spec)
         return m + c['tail'], len(m), 'chunk', spec['body']
     m = G.render(c['msg'])
+    if c.get('pp') is not None and c['msg']['kind'] == 'req':
+        pre = PP_VALID[c['pp'] % len(PP_VALID)]
+        return pre + m + c['tail'], len(pre) + len(m), 'req-pp', c['msg']['body']
     return m + c['tail'], len(m), c['msg']['kind'], c['msg']['body']
 
 
@@ -109,6 +118,9 @@ def features(c: Dict[str, Any], cuts: List[int]) -> Dict[str, Any]:
     else:
         spec = c['msg']
         regs = G.regions(spec, c['tail'])
+        if kind == 'req-pp':
+            L = len(PP_VALID[c['pp'] % len(PP_VALID)])
+            regs = [(0, L, 'proxy-protocol-line')] + [(a + L, b + L, lab) for (a, b, lab) in regs]
         fr = spec['framing']
         if fr == 'none' and not spec['headers']:
             fr = 'headerless'
@@ -186,6 +198,9 @@ def cases(draw: Any, what: str) -> Dict[str, Any]:
         if msg['framing'] == 'none':     # request_spec turns an empty Content-Length body into 'none'; cl0 is its own class
             msg['framing'], msg['body'] = 'cl', b'x'
         tail = draw(TAILS)
+        if draw(st.integers(0, 4)) == 0:
+            return {'msg': msg, 'tail': tail, 'pp': draw(st.integers(0, len(PP_VALID) - 1)),
+                    'extra_cuts': draw(st.lists(st.lists(st.integers(1, 600), max_size=6), max_size=6))}
     elif what == 'resp':
         msg = draw(G.response_spec(framings=('cl', 'chunked'), max_body=120))
         if msg['framing'] == 'cl' and not msg['body']:
@@ -276,7 +291,7 @@ def run_shard(spec: Dict[str, Any], seed: int, acc: Any) -> None:
                     return unl[:1]
                 for v in vs:
                     acc.excluded[acc.classify(v[0], v[1])] += 1
-        acc.label('msg:' + what)
+        acc.label('msg:' + what + ('+proxy-protocol-line' if c.get('pp') is not None else ''))
         return []
 
     def to_case(c: Dict[str, Any]) -> Dict[str, Any]:
